@@ -171,6 +171,52 @@ func (w *c20World) apply(r *Rec, op string) string {
 			r.Count("fund.no-account")
 		}
 		return "ok"
+	case "restart":
+		// module-level restart: export -> JSON (app codec) -> the module's own validation -> defaults -> import.
+		// The pool is bank state and stays. Nothing the property talks about may change.
+		poolBefore, feeBefore2 := w.dump(w.pool), w.dump(w.fee)
+		pBefore := w.app.RVestingKeeper.GetParams(w.ctx)
+		var finding string
+		pan, msg := safely(func() {
+			gs := w.app.RVestingKeeper.ExportGenesis(w.ctx)
+			bz := w.app.AppCodec().MustMarshalJSON(gs)
+			var back rvestingtypes.GenesisState
+			w.app.AppCodec().MustUnmarshalJSON(bz, &back)
+			if err := rvestingtypes.ValidateGenesis(&back); err != nil {
+				finding = "the exported genesis fails the module's own validation: " + err.Error()
+				return
+			}
+			w.app.RVestingKeeper.SetParams(w.ctx, rvestingtypes.DefaultParams())
+			w.app.RVestingKeeper.InitGenesis(w.ctx, &back)
+		})
+		if pan {
+			finding = "export / import panics: " + msg
+		}
+		pAfter := w.app.RVestingKeeper.GetParams(w.ctx)
+		if finding == "" && (pAfter.EnableVesting != pBefore.EnableVesting || fmt.Sprint(pAfter.PerBlockReward) != fmt.Sprint(pBefore.PerBlockReward) ||
+			len(pAfter.PerBlockReward) != len(pBefore.PerBlockReward) || w.dump(w.pool) != poolBefore || w.dump(w.fee) != feeBefore2) {
+			finding = fmt.Sprintf("parameters or balances changed: %v/%v -> %v/%v", pBefore.EnableVesting, pBefore.PerBlockReward, pAfter.EnableVesting, pAfter.PerBlockReward)
+		}
+		r.Count("restart")
+		if finding != "" {
+			r.Find(Finding{Sig: "C20:restart-changed-state", What: "export / import of the rvesting module in the middle of a history: " + finding,
+				Ops: append([]string{}, w.hist...), Obs: finding, Req: "restart is the identity on parameters, pool and fee collector"})
+			return "changed"
+		}
+		return "ok"
+	case "blockdry":
+		// a discarded execution (simulation / failed tx style): BeginBlock on a cache context that is dropped
+		cctx, _ := w.ctx.CacheContext()
+		cctx = cctx.WithBlockHeight(w.height + 1)
+		poolBefore, feeBefore2 := w.dump(w.pool), w.dump(w.fee)
+		safely(func() { rvesting.NewAppModule(w.app.RVestingKeeper).BeginBlock(cctx, abci.RequestBeginBlock{Header: cctx.BlockHeader()}) })
+		r.Count("blockdry")
+		if w.dump(w.pool) != poolBefore || w.dump(w.fee) != feeBefore2 {
+			r.Find(Finding{Sig: "C20:discarded-block-changed-state", What: "a BeginBlock run on a dropped cache context changed balances",
+				Ops: append([]string{}, w.hist...), Obs: w.dump(w.pool) + " / " + w.dump(w.fee), Req: poolBefore + " / " + feeBefore2})
+			return "changed"
+		}
+		return "ok"
 	case "block":
 		before := map[string]*big.Int{}
 		for _, d := range w.seen {
@@ -391,10 +437,15 @@ func c20GenHistory(r *Rec) []string {
 				}
 				h = append(h, strings.TrimSpace(fmt.Sprintf("reward %d %s", k, strings.Join(parts, " "))))
 			case x < 5:
-				if r.Rng.Intn(4) == 0 {
+				switch y := r.Rng.Intn(8); {
+				case y < 2:
 					h = append(h, "enable 0")
-				} else {
+				case y < 5:
 					h = append(h, "enable 1")
+				case y < 7:
+					h = append(h, "restart")
+				default:
+					h = append(h, "blockdry")
 				}
 			default:
 				h = append(h, "block")
